@@ -15,8 +15,8 @@ fn space(tier: Tier) -> &'static Space {
     static Q: OnceLock<Space> = OnceLock::new();
     static T: OnceLock<Space> = OnceLock::new();
     match tier {
-        Tier::Quick => Q.get_or_init(|| Space::new(&[("FX", 0), ("FS", 2), ("FC", 3), ("FA", 3)])),
-        Tier::Thorough => T.get_or_init(|| Space::new(&[("FX", 0), ("FS", 3), ("FC", 4), ("FA", 4)])),
+        Tier::Quick => Q.get_or_init(|| Space::new(&[("FX", 0), ("FP", 0), ("FS", 2), ("FC", 3), ("FA", 3)])),
+        Tier::Thorough => T.get_or_init(|| Space::new(&[("FX", 0), ("FP", 0), ("FS", 3), ("FC", 4), ("FA", 4)])),
     }
 }
 fn params(tier: Tier) -> (usize, &'static [usize]) {
